@@ -12,10 +12,10 @@ struct Ctx {
   Harness &H;
   size_t n;
   std::vector<mpq_class> pts;
-  Grid<S> g;
+  Grid<S> g, gcopy;  // gcopy: the same points in a distinct object (used for the second factor variant)
   RefPP rv;  // reference function of the current factor spline
   long trees = 0;
-  Ctx(Harness &h, size_t n_, const std::string &fam) : H(h), n(n_), pts(grid_family(fam, n_)), g(mkgrid<S>(pts)) {}
+  Ctx(Harness &h, size_t n_, const std::string &fam) : H(h), n(n_), pts(grid_family(fam, n_)), g(mkgrid<S>(pts)), gcopy(mkgrid<S>(pts)) {}
   S t(long num, long den) const { return mk<S>(mq(num, den)); }
 };
 
@@ -60,11 +60,11 @@ static void run_tree(Ctx &C, const char *desc, bool hasV, MK mkop, MA mkast) {
     Win fw = FW[fi];
     for (int fo = 0; fo < (hasV ? 2 : 1); fo++) {
       // factor of order 1 with generic coefficients, or (second variant) the same window with unit-like coefficients
-      VS v = mkspline_p<S, 1>(C.g, fw, fw.nint() ? (fo == 0 ? fw.nint() * 2 + 1 : fw.nint() * 2 + 2) : 0);
+      VS v = mkspline_p<S, 1>(fo == 0 ? C.g : C.gcopy, fw, fw.nint() ? (fo == 0 ? fw.nint() * 2 + 1 : fw.nint() * 2 + 2) : 0);
       if (fo == 1 && fw.nint() == 0) continue;
       C.rv = alpha(v);
       AstP ast = mkast();
-      std::string d0 = std::string(desc) + (hasV ? ";v=" + wstr(fw) + (fo ? ":gen2" : ":gen1") : "");
+      std::string d0 = std::string(desc) + (hasV ? ";v=" + wstr(fw) + (fo ? ":gen2:on-equal-grid-copy" : ":gen1") : "");
       if (hasV) C.H.cls(std::string("factor:") + fw.kind() + (fw.e < C.n ? ":ends-inside" : "") + (fw.s > 0 ? ":starts-inside" : ""));
       apply_order<0>(C, d0, v, mkop, *ast);
       apply_order<1>(C, d0, v, mkop, *ast);
